@@ -1,0 +1,207 @@
+//! Verification seam, compiled only with `--cfg triomphe_verif`.
+//!
+//! `atomic::AtomicUsize` is a `repr(transparent)` wrapper around the core
+//! atomic with the same API surface. While no hook table is registered every
+//! operation is forwarded to the core atomic unchanged. A verification harness
+//! may register a table with [`set_hooks`] to observe, schedule or replace
+//! each operation on a reference count (the table receives the real word and
+//! the orderings the crate asked for).
+
+use core::sync::atomic::{AtomicPtr, Ordering};
+
+/// Read-modify-write kinds forwarded to [`Hooks::rmw`].
+#[derive(Clone, Copy, Debug, PartialEq, Eq)]
+pub enum Rmw {
+    Swap,
+    Add,
+    Sub,
+    And,
+    Or,
+    Xor,
+    Max,
+    Min,
+}
+
+/// Callback table. Every callback receives the real word.
+pub struct Hooks {
+    pub load: fn(&core::sync::atomic::AtomicUsize, Ordering) -> usize,
+    pub store: fn(&core::sync::atomic::AtomicUsize, usize, Ordering),
+    pub rmw: fn(Rmw, &core::sync::atomic::AtomicUsize, usize, Ordering) -> usize,
+    pub cas: fn(
+        &core::sync::atomic::AtomicUsize,
+        usize,
+        usize,
+        Ordering,
+        Ordering,
+        bool,
+    ) -> Result<usize, usize>,
+    pub fence: fn(Ordering),
+}
+
+static HOOKS: AtomicPtr<Hooks> = AtomicPtr::new(core::ptr::null_mut());
+
+/// Register (or, with `None`, remove) the hook table.
+pub fn set_hooks(h: Option<&'static Hooks>) {
+    let p = match h {
+        Some(h) => h as *const Hooks as *mut Hooks,
+        None => core::ptr::null_mut(),
+    };
+    HOOKS.store(p, Ordering::SeqCst);
+}
+
+#[inline]
+fn hooks() -> Option<&'static Hooks> {
+    let p = HOOKS.load(Ordering::Relaxed);
+    if p.is_null() {
+        None
+    } else {
+        Some(unsafe { &*p })
+    }
+}
+
+pub mod atomic {
+    pub use core::sync::atomic::Ordering;
+
+    use super::{hooks, Rmw};
+    use core::sync::atomic::AtomicUsize as Real;
+
+    /// Drop-in replacement for `core::sync::atomic::fence`.
+    #[inline]
+    pub fn fence(order: Ordering) {
+        match hooks() {
+            None => core::sync::atomic::fence(order),
+            Some(h) => (h.fence)(order),
+        }
+    }
+
+    /// Drop-in replacement for `core::sync::atomic::AtomicUsize`.
+    #[repr(transparent)]
+    pub struct AtomicUsize(Real);
+
+    impl core::fmt::Debug for AtomicUsize {
+        fn fmt(&self, f: &mut core::fmt::Formatter<'_>) -> core::fmt::Result {
+            core::fmt::Debug::fmt(&self.0, f)
+        }
+    }
+
+    impl Default for AtomicUsize {
+        fn default() -> Self {
+            Self::new(0)
+        }
+    }
+
+    impl From<usize> for AtomicUsize {
+        fn from(v: usize) -> Self {
+            Self::new(v)
+        }
+    }
+
+    macro_rules! rmw {
+        ($name:ident, $kind:ident) => {
+            #[inline]
+            pub fn $name(&self, val: usize, order: Ordering) -> usize {
+                match hooks() {
+                    None => self.0.$name(val, order),
+                    Some(h) => (h.rmw)(Rmw::$kind, &self.0, val, order),
+                }
+            }
+        };
+    }
+
+    impl AtomicUsize {
+        #[inline]
+        pub const fn new(v: usize) -> Self {
+            AtomicUsize(Real::new(v))
+        }
+
+        #[inline]
+        pub fn get_mut(&mut self) -> &mut usize {
+            self.0.get_mut()
+        }
+
+        #[inline]
+        pub fn into_inner(self) -> usize {
+            self.0.into_inner()
+        }
+
+        #[inline]
+        pub fn as_ptr(&self) -> *mut usize {
+            self.0.as_ptr()
+        }
+
+        #[inline]
+        pub fn load(&self, order: Ordering) -> usize {
+            match hooks() {
+                None => self.0.load(order),
+                Some(h) => (h.load)(&self.0, order),
+            }
+        }
+
+        #[inline]
+        pub fn store(&self, val: usize, order: Ordering) {
+            match hooks() {
+                None => self.0.store(val, order),
+                Some(h) => (h.store)(&self.0, val, order),
+            }
+        }
+
+        rmw!(swap, Swap);
+        rmw!(fetch_add, Add);
+        rmw!(fetch_sub, Sub);
+        rmw!(fetch_and, And);
+        rmw!(fetch_or, Or);
+        rmw!(fetch_xor, Xor);
+        rmw!(fetch_max, Max);
+        rmw!(fetch_min, Min);
+
+        #[inline]
+        pub fn compare_exchange(
+            &self,
+            current: usize,
+            new: usize,
+            success: Ordering,
+            failure: Ordering,
+        ) -> Result<usize, usize> {
+            match hooks() {
+                None => self.0.compare_exchange(current, new, success, failure),
+                Some(h) => (h.cas)(&self.0, current, new, success, failure, false),
+            }
+        }
+
+        #[inline]
+        pub fn compare_exchange_weak(
+            &self,
+            current: usize,
+            new: usize,
+            success: Ordering,
+            failure: Ordering,
+        ) -> Result<usize, usize> {
+            match hooks() {
+                None => self
+                    .0
+                    .compare_exchange_weak(current, new, success, failure),
+                Some(h) => (h.cas)(&self.0, current, new, success, failure, true),
+            }
+        }
+
+        #[inline]
+        pub fn fetch_update<F>(
+            &self,
+            set_order: Ordering,
+            fetch_order: Ordering,
+            mut f: F,
+        ) -> Result<usize, usize>
+        where
+            F: FnMut(usize) -> Option<usize>,
+        {
+            let mut prev = self.load(fetch_order);
+            while let Some(next) = f(prev) {
+                match self.compare_exchange_weak(prev, next, set_order, fetch_order) {
+                    x @ Ok(_) => return x,
+                    Err(next_prev) => prev = next_prev,
+                }
+            }
+            Err(prev)
+        }
+    }
+}
